@@ -27,8 +27,15 @@ class DefaultNamingStrategy(NamingStrategy):
     `remote_path` parameter. The `local_filename` parameter is ignored
     """
 
+    FALLBACK_FILENAME = 'unnamed'
+    """Filename used when the remote path does not contain a usable filename"""
+
     def apply(self, remote_path: str, local_dir: str, local_filename: str) -> tuple[str, str]:
-        return local_dir, split_remote_path(remote_path)[-1]
+        remote_path_parts = split_remote_path(remote_path)
+        if not remote_path_parts:
+            return local_dir, self.FALLBACK_FILENAME
+
+        return local_dir, remote_path_parts[-1]
 
 
 class KeepDirectoryStrategy(NamingStrategy):
@@ -40,7 +47,7 @@ class KeepDirectoryStrategy(NamingStrategy):
         remote_path_parts = split_remote_path(remote_path)
 
         # Only a filename (not sure if this can occur)
-        if len(remote_path_parts) == 1:
+        if len(remote_path_parts) <= 1:
             return local_dir, local_filename
 
         # Ignore directories starting with '@@' or Windows drives (C:, D:)
